@@ -450,14 +450,23 @@ def close(a, b, rtol=1e-9, atol=0.0):
 
 
 # ---------------------------------------------------------------- star inputs (C20)
-def star_ts2(rng):
+def star_ts2(rng, isolate=None):
     """star-like tree sequence: every edge joins a non-sample parent to a sample at time 0.
     1-4 trees; a parent may span several trees (un-squashed adjacent edges) or be new in each;
-    each tree holds a subset (>= 2) of the samples; skewed mutation counts per sample"""
+    each tree holds a subset (>= 2) of the samples; skewed mutation counts per sample.
+    isolate (default: half of the multi-tree inputs): 'partially isolated samples' -- some samples have NO
+    edge on an interval (interior gap or up to the end of the sequence: missing data) and mutations are
+    placed above them both inside and outside the isolated stretch, plus mutations above the star parents
+    (roots where present, on no edge; absent elsewhere).  None of those sits on an edge, so none counts."""
     import tskit
     n = rng.randint(2, 8)
     L = rng.choice([10, 100, 1000])
     T = min(rng.choice([1, 1, 2, 3, 4]), L)
+    if isolate is None:
+        isolate = rng.random() < 0.5
+    if isolate and T == 1:
+        T = min(rng.choice([2, 3, 4]), L)
+        n = max(n, 3)
     brk = sorted(set([0, L] + [rng.randint(1, L - 1) for _ in range(T - 1)]))
     tables = tskit.TableCollection(L)
     for _ in range(n):
@@ -478,19 +487,31 @@ def star_ts2(rng):
                 kids.append(c)
         if k == len(brk) - 2:
             kids = sorted(set(kids) | (set(range(n)) - seen))
+        if isolate and k > 0 and len(kids) > 2:
+            gone = [c for c in kids if c in seen]      # had an edge before, loses it here
+            if gone and len(kids) == n:
+                kids.remove(rng.choice(gone))
         seen |= set(kids)
         present.append(sorted(kids))
         for c in sorted(kids):
             tables.edges.add_row(brk[k], brk[k + 1], p, c)
     weight = [rng.choice([0.0, 0.2, 1.0, 1.0, 5.0]) for _ in range(n)]
     dens = rng.choice([0.0, 0.05, 0.05, 0.1, 0.3, 0.3, 0.9, 0.9])
+    if isolate:
+        dens = max(dens, rng.choice([0.1, 0.3]) if L > 10 else 0.5)
     for x in range(L):
         if rng.random() < dens:
             k = max(j for j in range(len(brk) - 1) if brk[j] <= x)
-            w = [weight[c] for c in present[k]]
-            if sum(w) <= 0:
-                continue
-            c = rng.choices(present[k], weights=w)[0]
+            absent = [c for c in range(n) if c not in present[k]]
+            if isolate and rng.random() < 0.35:
+                # on no edge at x: an isolated sample, the parent that is the root here, or a parent absent here
+                pool = absent * 3 + [parents[k]] + [q for q in set(parents) if q != parents[k]]
+                c = rng.choice(pool)
+            else:
+                w = [weight[c] for c in present[k]]
+                if sum(w) <= 0:
+                    continue
+                c = rng.choices(present[k], weights=w)[0]
             s = tables.sites.add_row(x, "0")
             tables.mutations.add_row(site=s, node=c, derived_state="1")
     tables.sort()
@@ -500,20 +521,23 @@ def star_ts2(rng):
 
 
 def star_closed_form(ts, mutation_rate):
-    """exact (sum of mutation counts, mutation_rate * sum of spans) per parent, as Fractions,
-    computed from the tables alone"""
+    """exact (sum of mutation counts, mutation_rate * sum of spans) per parent, as Fractions, computed from
+    the tables with the tskit Tree API: a mutation counts for a parent only if an edge parent -> node
+    covers its position (mutations above isolated samples or above roots count for nobody)"""
     from fractions import Fraction
+    import tskit
     y = {}
     mu = {}
     rate = Fraction(mutation_rate)
     for e in ts.edges():
         mu[e.parent] = mu.get(e.parent, Fraction(0)) + rate * (Fraction(e.right) - Fraction(e.left))
         y.setdefault(e.parent, Fraction(0))
-    pos = ts.sites_position
-    for m in ts.mutations():
-        x = pos[m.site]
-        for e in ts.edges():
-            if e.child == m.node and e.left <= x < e.right:
-                y[e.parent] += 1
-                break
+    tree = tskit.Tree(ts)
+    for site in ts.sites():
+        tree.seek(site.position)
+        for m in site.mutations:
+            e = tree.edge(m.node)
+            if e != tskit.NULL:
+                assert ts.edges_child[e] == m.node and ts.edges_left[e] <= site.position < ts.edges_right[e]
+                y[int(ts.edges_parent[e])] += 1
     return y, mu
